@@ -333,7 +333,7 @@ var thoroughTier bool
 
 var standinRan bool
 var standinOut map[string][]standinOutcome // class -> outcomes
-var standinInputs map[string]string       // file -> input
+var standinInputs map[string]string        // file -> input
 var standinCount int
 
 func runFormatterStandin(e *Engine, seed int) error {
